@@ -297,6 +297,66 @@ def task_held_suarez_rates(ctx):
   settle('held_suarez.relaxation_rate_nonnegative_and_between_ka_ks', decide(ctx, 'held_suarez.relaxation_rate_nonnegative_and_between_ka_ks', conf, pre, z3.Or(*[z3.Or(x < ka, x > ks) for x in ktv]), 'QF_NRA'))
 
 
+def task_held_suarez_equilibrium(ctx):
+  """The equilibrium temperature is the published Held-Suarez (1994) profile with ONLY a floor:
+       T_eq = max( T_min, [ T_max - dT_y sin^2(lat) - dTheta_z log(p/p0) cos^2(lat) ] (p/p0)^kappa ),   p = sigma p_s,
+  for every surface pressure (p_s / p0 in [0.4, 1.3]: p may exceed p0 in the lowest layers under a surface high), every level and all parameter
+  values; log and pow are uninterpreted (the same applications occur on both sides).  A satisfiable query is settled on the real method at the
+  solver's surface pressure and on a pressure sweep."""
+  import copy
+  from dinosaur import held_suarez as hs, primitive_equations as pe, scales
+  ctx.encoded(hs.HeldSuarezForcing.equilibrium_temperature)
+  K = 3
+  coords = models.make_coords(dict(M=2, L=3, nlon=5, nlat=5), [0.0, 0.5, 0.9, 1.0])
+  specs = pe.PrimitiveEquationsSpecs.from_si()
+  real = hs.HeldSuarezForcing(coords, specs, np.full(K, float(specs.nondimensionalize(288 * scales.units.degK))))
+  lat = np.arcsin(np.array([[-0.9, 0.0, 0.4]]))
+  sig = np.array([0.25, 0.7, 0.95])
+  kappa = float(specs.kappa)
+  sp = TermSpace()
+  ps = TermArr.variables(sp, 'ps', (1, 3))
+  pm = {k: TermArr.variables(sp, k, ()) for k in ('minT', 'maxT', 'dTy', 'dThz')}
+
+  def impl(ps, minT, maxT, dTy, dThz):
+    g = copy.copy(real); g.sigma = sig; g.lat = lat; g.p0 = 1.0
+    g.minT, g.maxT, g.dTy, g.dThz = minT, maxT, dTy, dThz
+    return g.equilibrium_temperature(ps)
+
+  def spec(ps, minT, maxT, dTy, dThz):
+    pr = sig[:, None, None] * ps / 1.0
+    return pr ** kappa * (maxT - dTy * np.sin(lat) ** 2 - dThz * jnp.log(pr) * np.cos(lat) ** 2)
+  ex = (jnp.ones((1, 3)), 200.0, 315.0, 60.0, 10.0)
+  got = Interp(sp).run(jax.make_jaxpr(impl)(*ex), ps, pm['minT'], pm['maxT'], pm['dTy'], pm['dThz'])[0]
+  spec_inner = Interp(sp).run(jax.make_jaxpr(spec)(*ex), ps, pm['minT'], pm['maxT'], pm['dTy'], pm['dThz'])[0]
+  minT = pm['minT'].a.reshape(-1)[0]; maxT = pm['maxT'].a.reshape(-1)[0]; dTy = pm['dTy'].a.reshape(-1)[0]; dThz = pm['dThz'].a.reshape(-1)[0]
+  pre = [z3.And(p_ >= Q(0.4), p_ <= Q(1.3)) for p_ in ps.a.reshape(-1)] + [minT >= 100, minT <= 250, maxT >= 280, maxT <= 340, dTy >= 0, dTy <= 80, dThz >= 0, dThz <= 20]
+  ga = np.asarray(got.a, dtype=object).reshape(-1); sa = np.asarray(spec_inner.a, dtype=object).reshape(-1)
+  tolq = Q(1e-9)
+  bad = z3.Or(*[z3.Or(_r(g_) - z3.If(_r(s_) >= minT, _r(s_), minT) > tolq, z3.If(_r(s_) >= minT, _r(s_), minT) - _r(g_) > tolq) for g_, s_ in zip(ga, sa)])
+  conf = dict(symbolic='surface pressure / p0 in [0.4, 1.3] per column, minT, maxT, dTy, dThz', levels=sig.tolist())
+  ok, model = decide(ctx, 'held_suarez.equilibrium_temperature_is_published_profile_with_floor_only', conf, pre, bad, 'QF_UFNRA')
+  if not ok and model is not None:
+    vals = dict(minT=_fval(model, minT), maxT=_fval(model, maxT), dTy=_fval(model, dTy), dThz=_fval(model, dThz))
+    g = copy.copy(real); g.sigma = sig; g.lat = lat; g.p0 = 1.0
+    for k_, v_ in vals.items():
+      setattr(g, k_, v_)
+    worst = (0.0, None)
+    cand = [np.array([[_fval(model, p_) for p_ in ps.a.reshape(-1)]])] + [np.full((1, 3), v_) for v_ in np.linspace(0.4, 1.3, 19)]
+    for pc in cand:
+      with np.errstate(all='ignore'):
+        t_real = np.asarray(g.equilibrium_temperature(jnp.asarray(pc)), float)
+        prn = sig[:, None, None] * pc
+        t_spec = np.maximum(vals['minT'], prn ** kappa * (vals['maxT'] - vals['dTy'] * np.sin(lat) ** 2 - vals['dThz'] * np.log(prn) * np.cos(lat) ** 2))
+      d = float(np.nanmax(np.abs(t_real - t_spec)))
+      if d > worst[0]:
+        worst = (d, pc.tolist())
+    if worst[0] > 1e-9:
+      ctx.violation('held_suarez.equilibrium_temperature_is_published_profile_with_floor_only', dict(config=conf, kind='held-suarez-equilibrium'), dict(inputs=dict(vals, surface_pressure_over_p0=worst[1]), max_abs_difference=worst[0]),
+                    f'equilibrium temperature differs from the Held-Suarez profile (floor only) by {worst[0]:.3f} K at p_s/p0 = {worst[1]} with {vals}')
+    else:
+      ctx.error('held_suarez.equilibrium', 'query satisfiable but the real method equals the published profile at the solver values and on the pressure sweep')
+
+
 def task_held_suarez_state(ctx, cfg, levels, lname):
   from dinosaur import held_suarez as hs, primitive_equations as pe, scales
   coords = models.make_coords(cfg, levels)
@@ -463,6 +523,7 @@ def make_tasks(tier, seed):
            dict(name='solar-class-neg-offset-fast-normalized', fn='task_solar_radiation_class', kw=dict(cfg=dict(M=3, L=4, nlon=8, nlat=5, offset=-3.141592653589793, impl='fast', base=4), scale_name='si', normalized=True)),
            dict(name='solar-class-equiangular', fn='task_solar_radiation_class', kw=dict(cfg=dict(M=2, L=3, nlon=6, nlat=6, spacing='equiangular', offset=0.5235987755982988), scale_name='default', normalized=False)),
            dict(name='held-suarez-rates', fn='task_held_suarez_rates', kw={}),
+           dict(name='held-suarez-equilibrium', fn='task_held_suarez_equilibrium', kw={}),
            dict(name='held-suarez-state', fn='task_held_suarez_state', kw=dict(cfg=dict(M=3, L=4, nlon=8, nlat=5), levels=LS['dy3'].tolist(), lname='dy3'))]
   if tier != 'quick':
     tasks.append(dict(name='held-suarez-state-fast', fn='task_held_suarez_state', kw=dict(cfg=dict(M=4, L=5, nlon=12, nlat=6, impl='fast'), levels=LS['un4'].tolist(), lname='un4')))
